@@ -271,7 +271,7 @@ var forgeryKinds = []string{
 func (PKIForgeryEngine) Gen(prop, tier string, seed uint64, yield func(c any) bool) {
 	n := 5000
 	if tier == "thorough" {
-		n = 300000
+		n = 120000
 	}
 	if prop != "C01" {
 		n /= 4
